@@ -223,6 +223,12 @@ def scope_precedence_sites(repo, module: str = "onnx_ir.serde"):
                     last_wins = not setdef
                     inner = (not r) if last_wins else r
                     sites.append((f, n, f"{'last' if last_wins else 'first'} write of `for … in {norm(n.iter)}`", "inner" if inner else "outer"))
+                else:
+                    # neither stops at the first hit nor builds a map: if the body consumes the scope (reads the loop
+                    # variable) every scope that binds the name contributes - no scope "wins"
+                    tnames = {x.id for x in ast.walk(n.target) if isinstance(x, ast.Name)}
+                    if any(isinstance(x, ast.Name) and x.id in tnames and isinstance(x.ctx, ast.Load) for b in n.body for x in ast.walk(b)):
+                        sites.append((f, n, f"every hit of `for … in {norm(n.iter)}` (no break/return)", "all"))
             elif isinstance(n, (ast.DictComp, ast.ListComp, ast.GeneratorExp, ast.SetComp)):
                 r = _is_reversed_of(n.generators[0].iter, s)
                 if r is None:
